@@ -531,7 +531,13 @@ Definition spec_dial (icp : Z -> Z -> option Z) (steps : list (list act)) (obser
                  if src_healthy rs steps j
                     && match nth_error rs j with Some ri => negb (ri_dialled ri) | None => false end then
                    match target_of icp (name_of rs j) e with
-                   | Some n => existsb (fun ri => (ri_name ri =? n) && Nat.leb (ri_step ri) td) rs
+                   | Some n =>
+                       (* some record named n exists by the end of the step whose failure had not been reported
+                          before the step: the one the envelope went to, or the one just dialled for it *)
+                       existsb (fun k => match nth_error rs k with
+                                         | Some ri => (ri_name ri =? n) && Nat.leb (ri_step ri) td
+                                                      && negb (match td with O => false | S t0 => disc_before observed k t0 end)
+                                         | None => false end) (seq 0 (length rs))
                    | None => true
                    end
                  else true end) ds).
